@@ -59,6 +59,33 @@ Theorem C32_settings_values : forall l fuel,
 Proof. exact settings_ok_gen. Qed.
 Print Assumptions C32_settings_values.
 
+(* Central statement over the wire functions, for whole command sequences: for every well-formed input (wf_C32: the
+   wire is made of bytes and shorter than 2^24 octets, the reading loop has fuel, legal frames fit the read limit)
+   outside the known-finding class, the predicate the harness evaluates on the implementation's observation -
+   rules along the whole stream (rules_ok) and exact round trip of legal Write sequences incl. HEADERS/CONTINUATION
+   order (expect_all) - holds of the model's own output. *)
+Theorem C32_prop_of_model : forall i, wf_C32 i = true -> kf_C32 i = 0 -> prop_C32 i (run_C32 i) = true.
+Proof. exact prop_C32_of_model. Qed.
+Print Assumptions C32_prop_of_model.
+
+(* Sequence round trip on its own: legal Write calls (none with an empty HEADERS fragment), read back with the
+   maximum read size, give exactly the described frames in order, a PROTOCOL_ERROR at the first HEADERS/CONTINUATION
+   order violation, and EOF at the end; no Write call fails. *)
+Theorem C32_roundtrip_sequence : forall cs fuel lhs,
+  forallb wf_cmd cs = true -> existsb empty_headers cs = false -> forallb len_ok cs = true ->
+  blen (fst (write_all cs)) < 16777216 -> (length cs < fuel)%nat ->
+  read_all fuel 16777215 lhs (fst (write_all cs)) = expect_all lhs cs /\
+  forallb (fun e => e =? 0) (snd (write_all cs)) = true.
+Proof. exact read_all_written. Qed.
+Print Assumptions C32_roundtrip_sequence.
+
+(* wf_C32 holds of generated cases (a HEADERS+CONTINUATION+PING round trip; a raw stream with small read limit). *)
+Example C32_wf_examples :
+  wf_C32 (VL [VZ 16777215; VL [VL [VZ 1; VZ 3; VB [130; 134]; VZ 1; VZ 0; VZ 2; VZ 1; VZ 1; VZ 200];
+                               VL [VZ 9; VZ 3; VZ 1; VB [1; 2]]; VL [VZ 6; VZ 0; VB [1;2;3;4;5;6;7;8]]]]) = true /\
+  wf_C32 (VL [VZ 8; VL [VL [VZ 11; VB [0; 0; 5; 2; 0; 0; 0; 0; 1; 1; 2; 3; 4; 5]]; VL [VZ 10; VZ 8; VZ 0; VZ 0; VB [0; 0; 0; 0]]]]) = true.
+Proof. exact wf_C32_example. Qed.
+
 (* Non-vacuity *)
 Example C32_roundtrip_example :
   let c := WHeaders 3 [130; 134] true false 2 1 true 200 in
